@@ -206,6 +206,6 @@ def struct(name, fields, cases, gendoc=None, specdoc=None, file=""):
     return {"name": name, "gendoc": gendoc or [], "specdoc": specdoc or [], "fields": fields, "cases": cases, "file": file}
 
 
-def scenario(sid, structs, aux=None, imports=None, grouped=False, groupaux=None):
+def scenario(sid, structs, aux=None, imports=None, grouped=False, groupaux=None, groupdoc=None):
     return {"id": sid, "pkg": sid, "aux": aux or [], "imports": imports or [], "structs": structs,
-            "grouped": grouped, "groupaux": groupaux or []}
+            "grouped": grouped, "groupaux": groupaux or [], "groupdoc": groupdoc or []}
